@@ -36,7 +36,9 @@ def generate(rng, n, tier):
                     out.append({'C': sym_matrix(rows, None, flat=flat), 'mode': mode})
     for _ in range(n):
         rows = rng.randint(3, 10)
-        vals = rng.choice([[0, 1, 2], [1, 3, 4, 9, 20], [0, 5], [0.5, 0.25, 1.75, 3]])
+        vals = rng.choice([[0, 1, 2], [1, 3, 4, 9, 20], [0, 5], [0.5, 0.25, 1.75, 3],
+                           [10 ** 8, 10 ** 8 + 1, 10 ** 8 + 3, 2 * 10 ** 8 + 1, 3],          # large constant + small detail: near-tied totals
+                           [2 ** 24 + 1, 2 ** 24 + 3, 2 ** 25 + 1, 1], [2.0 ** -20, 1 + 2.0 ** -20, 2, 1]])
         out.append({'C': sym_matrix(rows, vals, rng), 'mode': rng.choice([0, 1])})
     return out
 
